@@ -1,5 +1,8 @@
 CONSTANTS p = 7
  nq = 1
+ qnr2 = 2
+ big = FALSE
+ phases = {"quad", "sextic", "dodecic", "cyc"}
 SPECIFICATION Spec
 INVARIANT Check
 CHECK_DEADLOCK FALSE
